@@ -113,6 +113,12 @@ class Ctx:
     def run(self, args, timeout=1800, env=None, cwd=None, ok=(0,)):
         r = subprocess.run(args, capture_output=True, text=True, timeout=timeout, env=env or GOENV, cwd=cwd)
         if r.returncode not in ok:
+            fr = crash_frame(r.stderr)
+            if fr and fr.startswith("github.com/welllog/golib/") and "verifshim" not in fr:
+                # the process died inside the library (nil dereference, index out of range, fatal error ...)
+                self.violation("the real code crashed the driver process in %s: %s" % (fr, first_panic_line(r.stderr)),
+                               {"component": "Crash", "command": " ".join(map(str, args[1:])), "stderr": r.stderr[:6000], "note": "re-run the check"},
+                               key="crash/" + fr.split("(")[0])
             raise Inconclusive("command failed (%d): %s\n%s\n%s" % (r.returncode, " ".join(map(str, args)), r.stdout[-2000:], r.stderr[-3000:]))
         return r
 
@@ -244,6 +250,32 @@ class Ctx:
             log("scratch kept:", self.scratch)
             return
         shutil.rmtree(self.scratch, ignore_errors=True)
+
+
+def first_panic_line(stderr):
+    for l in stderr.splitlines():
+        if l.startswith("panic:") or l.startswith("fatal error:"):
+            return l[:300]
+    return ""
+
+
+def crash_frame(stderr):
+    """The innermost non-runtime function of the goroutine that crashed a Go process, or None."""
+    if "panic:" not in stderr and "fatal error:" not in stderr:
+        return None
+    lines = stderr.splitlines()
+    for i, l in enumerate(lines):
+        if re.match(r"goroutine \d+ .*\[running", l):
+            for f in lines[i + 1:]:
+                if not f or f.startswith("\t") or f.startswith("goroutine "):
+                    if f.startswith("goroutine "):
+                        break
+                    continue
+                if f.startswith(("panic(", "runtime.", "runtime/", "sync/atomic.", "internal/", "created by")):
+                    continue
+                return f
+            break
+    return None
 
 
 def known_findings():
